@@ -402,7 +402,45 @@ pub fn run(ctx: &mut Ctx) {
         ctx.trace(|| format!("cfg {i}: {}", p.describe()));
         let mut rng2 = Rng64::derive(ctx.seed, &["c05-case"], i * 7919 + ctx.shard as u64);
         let mut v = V05 { rng: &mut rng2, reps: 4 };
-        if let Err(e) = with_type(ctx, &p, &mut v) {
+        // every fifth chunked circuit is the multithreaded instantiation shipped behind the
+        // `multithreaded` feature (same circuit, rayon-based ParallelSum gadget)
+        let mt = kind.has_joint_rand() && i % 5 == 3;
+        if mt {
+            ctx.count("configs_multithreaded_gadget");
+        }
+        if let Err(e) = with_type_ex(ctx, &p, &mut v, mt) {
+            ctx.violation(format!("{}|constructor-refused", kind.name()), "admissible parameters refused", json!({"config": p.describe(), "err": e}));
+        }
+    }
+    // Large chunked circuits (thousands of inputs, chunk lengths that are and are not multiples of
+    // 8 / 32, partial last chunks), serial and multithreaded: sizes at which an implementation may
+    // switch strategy (batching, parallel splitting) are where boundary mistakes live.
+    let n_big = (ctx.budget(96, 1_600) / ctx.nshards as u64).max(2);
+    let mut rng = ctx.rng("c05-big");
+    for i in 0..n_big {
+        let kind = [Kind::SumVec, Kind::Histogram, Kind::Multihot, Kind::L1BoundSum][(i as usize + ctx.shard) % 4];
+        let fp = if rng.bool() { P64 } else { P128 };
+        let n = 2_000 + rng.usize_below(if ctx.quick() { 10_000 } else { 40_000 });
+        let chunk = match rng.below(6) {
+            0 => 100,
+            1 => 33 + rng.usize_below(31),
+            2 => 8 * (4 + rng.usize_below(30)),
+            3 => prio::vdaf::prio3::optimal_chunk_length(n),
+            4 => prio::vdaf::prio3::optimal_chunk_length(n) + 1 + rng.usize_below(7),
+            _ => 20 + rng.usize_below(300),
+        };
+        let p = match kind {
+            Kind::SumVec => Params { kind, max: 1, len: n, chunk, p: fp },
+            Kind::Histogram => Params { kind, max: 1, len: n, chunk, p: fp },
+            Kind::Multihot => Params { kind, max: 1 + rng.below(9) as u128, len: n, chunk, p: fp },
+            _ => Params { kind, max: 3, len: n / 2, chunk, p: fp },
+        };
+        let mt = rng.chance(2, 3);
+        ctx.trace(|| format!("big cfg {i}: {} mt={mt}", p.describe()));
+        ctx.count(if mt { "big_configs_multithreaded_gadget" } else { "big_configs_serial_gadget" });
+        let mut rng2 = Rng64::derive(ctx.seed, &["c05-big-case"], i * 7919 + ctx.shard as u64);
+        let mut v = V05 { rng: &mut rng2, reps: 1 };
+        if let Err(e) = with_type_ex(ctx, &p, &mut v, mt) {
             ctx.violation(format!("{}|constructor-refused", kind.name()), "admissible parameters refused", json!({"config": p.describe(), "err": e}));
         }
     }
